@@ -513,6 +513,19 @@ func setupFeeds(e *Env, o core.RunOpts) error {
 		e.Actors = append(e.Actors, &OraclePenaltyChurn{Rate: 30 + e.Ch.Intn("cfg.oracle.penaltychurn.rate", 60)})
 	}
 	e.Monitors = append(e.Monitors, &C06{}, &C07{}, &C15{}, &C16{}, NewC01(), &C09{})
+	if o.Prop == "C07" && e.Ch.Bool("cfg.feeds.paramchurn", 300) {
+		// C07 quantifies over "all threshold/min/max interval parameters": governance moves them (and the feed limit) during the
+		// run, edge values included. The other properties' reference models of this profile are written for intervals and
+		// thresholds of ordinary magnitude, so these runs are judged by C07's monitor alone.
+		gov := getGov(e)
+		if gov == nil {
+			gov = &GovActor{}
+			e.Shared["gov"] = gov
+			e.Actors = append(e.Actors, gov)
+		}
+		e.Actors = append(e.Actors, &FeedsParamChurn{Rate: 30 + e.Ch.Intn("cfg.feeds.paramchurn.rate", 70)})
+		e.Monitors = []Monitor{&C07{}}
+	}
 	e.MaxSteps = e.Ch.Range("cfg.steps", 40, 110)
 	if o.Thorough {
 		e.MaxSteps = e.Ch.Range("cfg.steps", 60, 220)
@@ -752,6 +765,58 @@ func setupFuzz(e *Env, o core.RunOpts) error {
 	bp := drawBandtssParams(e)
 	bp.RewardPercentage = []uint64{10, 0, 100, 50}[e.Ch.Intn("cfg.eco.tpct", 4)]
 	tup := drawTunnelParams(e)
+	if e.Ch.Bool("cfg.fuzz.genesis.edge", 250) {
+		// one numeric parameter of one module already has an edge value in the genesis file (accepted by the module's validation):
+		// the whole history runs under it, not only the part after a governance proposal
+		var what string
+		var ok bool
+		switch e.Ch.Intn("cfg.fuzz.genesis.edge.module", 5) {
+		case 0:
+			cp := op
+			if what, ok = setExtreme(e, &cp); ok && cp.Validate() == nil && cp.OracleRewardPercentage == op.OracleRewardPercentage {
+				op = cp
+			} else {
+				ok = false
+			}
+		case 1:
+			cp := tp
+			if what, ok = setExtreme(e, &cp); ok && cp.Validate() == nil {
+				tp = cp
+			} else {
+				ok = false
+			}
+		case 2:
+			cp := bp
+			if what, ok = setExtreme(e, &cp); ok && cp.Validate() == nil && cp.RewardPercentage == bp.RewardPercentage {
+				bp = cp
+			} else {
+				ok = false
+			}
+		case 3:
+			cp := fp
+			if what, ok = setExtreme(e, &cp); ok && cp.Validate() == nil {
+				fp = cp
+			} else {
+				ok = false
+			}
+		case 4:
+			cp := tup
+			if what, ok = setExtreme(e, &cp); ok && cp.Validate() == nil {
+				tup = cp
+			} else {
+				ok = false
+			}
+		}
+		if ok {
+			e.St.Fault("genesis_parameter_at_an_edge_value")
+			e.Desc("genesis edge-value parameter: %s", what)
+			e.Log.Add("genesis edge-value parameter: %s", what)
+		}
+	}
+	harnessDE := int(tp.MaxDESize)
+	if tp.MaxDESize > 40 {
+		harnessDE = 40 // what the harness's members publish; the chain's limit may be anything
+	}
 	e.Shared["oracle.genesis.params"] = op
 	e.Shared["tss.genesis.params"] = tp
 	e.Shared["bandtss.genesis.params"] = bp
@@ -773,10 +838,10 @@ func setupFuzz(e *Env, o core.RunOpts) error {
 	size := 1 + e.Ch.Intn("cfg.tss.groupsize", 4)
 	thr := uint64(1 + e.Ch.Intn("cfg.tss.threshold", size))
 	pool := NewTSSPool(e, accs[:poolSize])
-	drawMemberBehaviour(e, pool, int(tp.MaxDESize), true)
+	drawMemberBehaviour(e, pool, harnessDE, true)
 	e.Shared["tss.shadow"] = NewTSSShadow(pool)
 	e.Shared["tss.pool"] = pool
-	gcfg := tssGenesisCfg{TSSParams: tp, BandtssParams: bp, GroupMembers: pool.Members[:size], Threshold: thr, InitialDEs: int(tp.MaxDESize)}
+	gcfg := tssGenesisCfg{TSSParams: tp, BandtssParams: bp, GroupMembers: pool.Members[:size], Threshold: thr, InitialDEs: harnessDE}
 	var dss []dsSpec
 	treas := world.NewAccount(o.Seed, "treasury")
 	for i := 0; i < 3; i++ {
